@@ -135,7 +135,7 @@ example : intoBigint (mkCfg false 2 (2 ^ 128 - 159)) (toLimbs 2 (2 ^ 128 - 160))
     = [5336793882959996016, 5684845657935647982] := by decide +kernel
 example : (value [5336793882959996016, 5684845657935647982] * B ^ 2) % (2 ^ 128 - 159)
     = (2 ^ 128 - 160) % (2 ^ 128 - 159) := by decide +kernel
-example : intoBigint (mkCfg false 1 (2 ^ 64 - 59)) [B - 60] = [311269995810552389] := by
+example : intoBigint (mkCfg false 1 (2 ^ 64 - 59)) [B - 60] = [3751880150584993537] := by
   decide +kernel
 
 /-! ## 3. `from_bigint` -/
@@ -306,6 +306,17 @@ example : ∀ a ∈ (List.range 7).map (fun i => toLimbs 2 (2 ^ 126 - 138 - i)),
   rw [toLimbs_value]
   have : (2 : Nat) ^ 126 - 138 - i < 2 ^ 126 - 137 := by omega
   exact Nat.lt_of_le_of_lt (Nat.mod_le _ _) this
+example : ∀ b ∈ (List.range 7).map (fun i => toLimbs 2 (2 ^ 126 - 200 - 3 * i)),
+    Elem (mkCfg true 2 (2 ^ 126 - 137)) (2 ^ 126 - 137) b := by
+  intro b hb
+  simp only [List.mem_map, List.mem_range] at hb
+  obtain ⟨i, hi, rfl⟩ := hb
+  refine ⟨toLimbs_length _ _, toLimbs_wf _ _, ?_⟩
+  rw [toLimbs_value]
+  have : (2 : Nat) ^ 126 - 200 - 3 * i < 2 ^ 126 - 137 := by omega
+  exact Nat.lt_of_le_of_lt (Nat.mod_le _ _) this
+-- the hypothesis `(M+1)·p ≤ R` of the interleaved theorems at the chunk size `M = 3`
+example : (3 + 1) * (2 ^ 126 - 137) ≤ B ^ (mkCfg false 2 (2 ^ 126 - 137)).n := by decide +kernel
 -- trait default, M = 7: three chunks, each through the single-carry-word variant
 example : sumOfProducts (mkCfg false 2 (2 ^ 126 - 137))
     ((List.range 7).map (fun i => toLimbs 2 (2 ^ 126 - 138 - i)))
